@@ -399,4 +399,59 @@ theorem combine_sum_conserves (hists : List (List (Bin ℝ))) :
 example : binTotal (combine ([[⟨0, 1, 5⟩, ⟨1, 2, 10⟩], [⟨1, 2, 12⟩, ⟨2, 3, 3⟩]] : List (List (Bin ℝ)))) = 30 := by
   rw [combine_sum_conserves]; simp [binTotal, total]; norm_num
 
+/-! ## 6. Unoccupied classes (NaN contents, `nan_default=True`) -/
+
+/-- `nan_default=True` marks exactly the target classes that no occupied source class overlaps. -/
+theorem rebin_nan_default_marks_unoccupied (src : List (OBin ℝ)) (tl tr : ℝ) :
+    aggregateOpt true src tl tr = none ↔ (present src).filter (overlapsB tl tr) = [] := by
+  unfold aggregateOpt
+  constructor
+  · intro h
+    by_cases he : ((present src).filter (overlapsB tl tr)).isEmpty = true
+    · exact List.isEmpty_iff.mp he
+    · simp [he] at h
+  · intro h
+    simp [h]
+
+/-- Re-binning with `nan_default` (True or False) conserves the total, NaN counted as nothing: for a gap-free
+target that covers every occupied source class (occupied classes of positive width). -/
+theorem rebin_nan_default_conserves_total (nd : Bool) (src : List (OBin ℝ)) (b0 : ℝ) (rest : List ℝ)
+    (hm : Mono (b0 :: rest)) (hpos : ∀ s ∈ present src, s.l < s.r)
+    (hcov : ∀ s ∈ present src, b0 ≤ s.l ∧ s.r ≤ (b0 :: rest).getLast (List.cons_ne_nil _ _)) :
+    ototal (rebinOpt nd src (b0 :: rest)) = binTotal (present src) := by
+  unfold ototal
+  simp only [lit_zero]
+  rw [rebinOpt_getD]
+  exact rebin_conserves_total (present src) b0 rest hm hpos hcov
+
+example : present ([⟨0, 1, some 10⟩, ⟨1, 2, none⟩, ⟨2, 4, some 5⟩] : List (OBin ℝ)) = [⟨0, 1, 10⟩, ⟨2, 4, 5⟩] := by
+  simp [present]
+
+/-- Combining by sum with unoccupied classes: the grand total is the sum of the totals of the parts, NaN counted as
+nothing (pandas' groupby-sum skips NaN). -/
+theorem combine_sum_conserves_optional (hists : List (List (OBin ℝ))) :
+    binTotal (combineOpt hists) = (hists.map fun h => binTotal (present h)).sum := by
+  unfold combineOpt
+  rw [combine_sum_conserves, List.map_map]
+  congr 1
+  apply List.map_congr_left
+  intro h _
+  exact binTotal_getD h
+
+/-- The pipeline of the docstring - every histogram re-binned (`nan_default` either way) to one common gap-free
+binning that covers it, then combined by sum - conserves the grand total of the occupied classes. -/
+theorem rebin_then_combine_conserves (nd : Bool) (hists : List (List (OBin ℝ))) (b0 : ℝ) (rest : List ℝ)
+    (hm : Mono (b0 :: rest)) (hpos : ∀ h ∈ hists, ∀ s ∈ present h, s.l < s.r)
+    (hcov : ∀ h ∈ hists, ∀ s ∈ present h, b0 ≤ s.l ∧ s.r ≤ (b0 :: rest).getLast (List.cons_ne_nil _ _)) :
+    binTotal (rebinCombine nd hists (b0 :: rest)) = (hists.map fun h => binTotal (present h)).sum := by
+  unfold rebinCombine
+  rw [combine_sum_conserves_optional, List.map_map]
+  congr 1
+  apply List.map_congr_left
+  intro h hh
+  simp only [Function.comp]
+  rw [binTotal_present, ← rebin_nan_default_conserves_total nd h b0 rest hm (hpos h hh) (hcov h hh)]
+  unfold ototal rebinOptBins rebinOpt
+  simp [total_eq_sum, Function.comp_def]
+
 end PylifeVerif.C14
